@@ -5,7 +5,7 @@ V = os.path.dirname(os.path.dirname(os.path.abspath(__file__)))
 TECH = 'deterministic simulation with fault injection: seeded runs of real FSM::Instance nodes (authority, twin, copy, followers over a lossy transport, durable store with crash/restart) under behaviour cards; '
 C = {
  'C01': ('well-formedness invariant evaluated on every node after every operation and inside update/react/query/guard callbacks', '9 C01',
-         'exploration of seeded histories (all request kinds, guard vetoes and substitutions, adversarial select()/utility()/rng values, reset, loads into unrelated configurations, replays, crash recovery) on 18 fixed shapes x up to 17 configurations; the invariant is model-free (computed from an independently derived structure table)',
+         'exploration of seeded histories (all request kinds, guard vetoes and substitutions, adversarial select()/utility()/rng values, reset, loads into unrelated configurations, replays, crash recovery) on 18 fixed shapes x up to 19 configurations; the invariant is model-free (computed from an independently derived structure table)',
          'trusts gen/shapes.py for the structure table (static_asserted against the library ids/counts) and the harness observation through isActive()/activeSubState(); generator respects the documented preconditions; sampling, not enumeration'),
  'C02': ('clause-wise reference model (sim/model.cpp) fed the observed approved requests, resolver returns and random numbers: destination active, choice by request kind, untouched regions, resumable marks, reset, idle processing; requests are queued as the kind and destination the caller named, through the id-based and the templated flavour of the API alike', '9 C02 / Appendix B.1',
          'refinement of sampled steps against a small executable model written from the statement; clauses the statement leaves open are explicit don\'t-cares; documented defects of batch handling are avoided and announced as known findings',
